@@ -39,7 +39,9 @@ TRUSTED = [
     "translators tools/translate/qasm_tr.py and gates_tr.py (fail-closed)",
     "QubitCircuit.gates is read through the public attributes name/targets/controls/arg_value/classical_controls of Gate (the model's cc flag is the "
     "truthiness of classical_controls, whatever classical_control_value is) and "
-    "targets/classical_store of Measurement; 0-d arrays, numpy integer qubit indices and gates with a wrong number of parameters are not modelled",
+    "targets/classical_store of Measurement; 0-d arrays and numpy qubit indices are not modelled (ndarray targets are generated and judged by the oracle only: open finding ndarray-targets); "
+    "a parameter on a parameterless gate is modelled (same text) but outside circ_wf (open finding parameter-on-parameterless-gate); user gates enter the model by "
+    "NAME only (a user gate named exactly like a library gate is exported by model and code alike: open finding user-gate-with-library-name)",
     "equivalence: per record of measurement outcomes, states agree up to a unit scalar",
 ]
 ASSUMES = ["parameters range over all reals via the phase-ring quantification of Found",
@@ -53,6 +55,11 @@ EXPORTABLE = {"RX": (0, 1), "RY": (0, 1), "RZ": (0, 1), "X": (0, 1), "Y": (0, 1)
               "CS": (1, 1), "CT": (1, 1), "TOFFOLI": (2, 1)}                      # name -> (#controls, #targets)
 NON_EXPORTABLE = {"CSIGN": (1, 1, 0), "CZ": (1, 1, 0), "CY": (1, 1, 0), "ISWAP": (0, 2, 0), "SQRTSWAP": (0, 2, 0), "CPHASE": (1, 1, 1),
                   "FREDKIN": (1, 2, 0), "BERKELEY": (0, 2, 0), "R": (0, 1, 2), "PHASEGATE": (0, 1, 1), "SQRTISWAP": (0, 2, 0)}
+PARAMLESS = ["X", "Y", "Z", "SNOT", "S", "T", "SQRTNOT", "CNOT", "SWAP", "CS", "CT", "TOFFOLI"]
+# names a USER gate may carry: case variants of library / exportable / qelib1 names (must be refused like any non-exportable gate)
+CASE_VARIANTS = ["s", "t", "x", "y", "z", "rx", "ry", "rz", "snot", "cnot", "swap", "crx", "cry", "crz", "cs", "ct", "toffoli", "qasmu", "sqrtnot",
+                 "Rx", "Cnot", "Snot", "sWAP", "h", "cx", "u3", "ccx", "Qasmu", "tOFFOLI", "Crz"]
+USERLIB_NAMES = ["X", "Y", "Z", "SNOT", "S", "T", "SQRTNOT"]
 SPECIAL = [0.0, 0, -0.5, 0.5, math.pi, -math.pi / 2, 1e-9, -1e-9, 1e12, 1e16, 2.5e-7, 3, -2, 1.25, 7.0, 1e-5, 123456.789, 0.1, 5e-324]
 
 
@@ -87,16 +94,44 @@ def build_arg(a):
     raise ValueError(k)
 
 
+def user_unitary(k):
+    """the unitary every generated USER gate is bound to: a real rotation (x) real rotation - no library gate up to a phase"""
+    from qutip import Qobj
+    R = lambda a: np.array([[np.cos(a), -np.sin(a)], [np.sin(a), np.cos(a)]])
+    M = R(0.4)
+    for j in range(1, k):
+        M = np.kron(M, R(0.4 + 0.5 * j))
+    return Qobj(M, dims=[[2] * k, [2] * k])
+
+
 def build_circuit(c):
     from qutip_qip.circuit import QubitCircuit
-    qc = QubitCircuit(c["N"], num_cbits=c["ncb"])
+    ug = {o["gate"]: user_unitary(len(o["targets"])) for o in c["ops"] if o.get("user")}
+    qc = QubitCircuit(c["N"], num_cbits=c["ncb"], user_gates=ug) if ug else QubitCircuit(c["N"], num_cbits=c["ncb"])
     for o in c["ops"]:
         if "meas" in o:
             qc.add_measurement("M", targets=[o["meas"][0]], classical_store=o["meas"][1])
         else:
-            qc.add_gate(o["gate"], targets=list(o["targets"]), controls=list(o["controls"]) or None, arg_value=build_arg(o["arg"]),
+            tg = np.array(o["targets"]) if o.get("np_targets") else list(o["targets"])
+            qc.add_gate(o["gate"], targets=tg, controls=list(o["controls"]) or None, arg_value=build_arg(o["arg"]),
                         classical_controls=o.get("cc"), classical_control_value=o.get("ccv"))
     return qc
+
+
+# ---- input classes of the open known findings (unchanged tree) -------------------------------------------------------
+def is_userlib(o):
+    """a USER gate (own unitary) named exactly like a directly exportable library gate"""
+    return "gate" in o and bool(o.get("user")) and o["gate"] in EXPORTABLE
+
+
+def is_nptargets(o):
+    """a gate without controls whose targets are given as a numpy array"""
+    return "gate" in o and bool(o.get("np_targets")) and not o["controls"]
+
+
+def is_extra_param(o):
+    """a library gate that takes no parameter but carries an arg_value"""
+    return "gate" in o and not o.get("user") and o["gate"] in PARAMLESS and bool(o["arg"]["vals"])
 
 
 FDEC = re.compile(r"^(-?)(\d+)\.(\d+)$")
@@ -244,7 +279,7 @@ def exportable(c):
             if o["meas"][1] is None:
                 return False
             continue
-        if o["gate"] not in EXPORTABLE or o.get("cc"):
+        if o["gate"] not in EXPORTABLE or o.get("cc") or o.get("user") or o.get("np_targets") or is_extra_param(o):
             return False
         for v in o["arg"]["vals"]:
             if v[0] == "f" and not math.isfinite(float(v[1])):
@@ -273,9 +308,35 @@ def oracle(c, qc, text, err, rng=None):
         if exportable(c):
             return ("refused: " + str(err), "OpenQASM text", "a circuit of exportable gates is refused")
         return None
-    if not exportable(c) and any(("gate" in o and (o["gate"] in NON_EXPORTABLE or o.get("cc"))) or ("meas" in o and o["meas"][1] is None)
-                                 for o in c["ops"]):
+    if not exportable(c) and any(("gate" in o and (o["gate"] in NON_EXPORTABLE or o.get("cc") or (o.get("user") and not is_userlib(o))))
+                                 or ("meas" in o and o["meas"][1] is None) for o in c["ops"]):
         return (dict(text_tail=text[-200:], action=_cc_action(c, qc, text)), "refused with an error", "a non-exportable operation is exported")
+    r = _oracle_text(c, qc, text, rng)
+    # the three open findings of the unchanged tree: reported under their own name ONLY when the circuit is in the narrow class and
+    # the failure is the one the class predicts; anything else keeps its generic description (= a VIOLATION)
+    ops = [o for o in c["ops"] if "gate" in o]
+    if any(is_userlib(o) for o in ops):
+        if r is not None and (r[2].startswith("exported text denotes a different circuit") or r[2].startswith("re-imported circuit acts differently")):
+            return (dict(text_tail=text[-200:], detail=r[2]), "refused with an error (the user gate is not the library gate)", USERLIB)
+        return (text[-200:], "refused with an error", "a user gate named like a library gate is exported") if r is None else r
+    if any(is_nptargets(o) for o in ops):
+        if r is not None and r[2].startswith("exported text is not valid OpenQASM 2.0") and re.search(r"(?m)^\w+(\([^)]*\))? ;$", text):
+            return (r[0], r[1], NPTARGETS)
+        return (text[-200:], "text with the gate's qubits", "a gate with ndarray targets is exported") if r is None else r
+    if any(is_extra_param(o) for o in ops):
+        if r is not None and r[2].startswith("exported text is not valid OpenQASM 2.0"):
+            return (r[0], r[1], EXTRAPARAM)
+        return (text[-200:], "refused or text without the parameter", "a parameter on a parameterless gate is exported") if r is None else r
+    return r
+
+
+USERLIB = "a user gate named exactly like a library gate is exported as the library gate (the text denotes a different unitary)"
+NPTARGETS = "a gate whose targets are a numpy array is exported with an empty qubit list (not valid OpenQASM 2.0)"
+EXTRAPARAM = "a parameterless gate carrying an arg_value is exported with a parameter list (not valid OpenQASM 2.0: wrong arity)"
+
+
+def _oracle_text(c, qc, text, rng=None):
+    """validity, denotation and re-import of an exported text -> None | (observed, expected, what)"""
     semicolon_only = False
     try:
         nq, nc, prims = OQ.elaborate(OQ.parse(text))
@@ -508,8 +569,15 @@ def classify(f):
     """measure-without-semicolon: the strict reader rejects the text, the circuit contains a Measurement, and with the ';'
     supplied every clause (validity, denotation, re-import of the original text) holds - established by `oracle`"""
     c = f.get("input", {}).get("circuit", {})
-    if f.get("what") == SEMI and any("meas" in o for o in c.get("ops", [])):
+    ops = c.get("ops", [])
+    if f.get("what") == SEMI and any("meas" in o for o in ops):
         return "measure-without-semicolon"
+    if f.get("what") == USERLIB and any(is_userlib(o) for o in ops):
+        return "user-gate-with-library-name"
+    if f.get("what") == NPTARGETS and any(is_nptargets(o) for o in ops):
+        return "ndarray-targets"
+    if f.get("what") == EXTRAPARAM and any(is_extra_param(o) for o in ops):
+        return "parameter-on-parameterless-gate"
     return None
 
 
@@ -543,6 +611,44 @@ def _stream(ctx, n_ok, n_bad):
                 if rng.random() < 0.5:
                     ops.insert(rng.randrange(2), {"gate": "SNOT", "targets": [rng.randrange(3)], "controls": [], "arg": {"kind": "none", "vals": []}})
                 cases.append(("classical-control", {"N": 3, "ncb": 3, "ops": ops}))
+    none = {"kind": "none", "vals": []}
+    plain = lambda name, qs: {"gate": name, "targets": qs, "controls": [], "arg": none}
+    # USER gates (own unitary) named like a library gate in another case: must be refused like any non-exportable gate
+    for name in CASE_VARIANTS:
+        for k in (1, 2):
+            ops = [plain("SNOT", [0]), dict(plain(name, rng.sample(range(3), k)), user=True), {"gate": "CNOT", "targets": [1], "controls": [0], "arg": none}]
+            cases.append(("user-gate-case-variant", {"N": 3, "ncb": 0, "ops": ops}))
+    # ... and named EXACTLY like a library gate (open finding user-gate-with-library-name)
+    for name in USERLIB_NAMES:
+        ops = [plain("SNOT", [0]), dict(plain(name, [rng.randrange(3)]), user=True)]
+        cases.append(("user-gate-library-name", {"N": 3, "ncb": 0, "ops": ops}))
+    # targets given as a numpy array (open finding ndarray-targets); with controls the export must refuse or be right
+    for name in ["RX", "RY", "RZ", "X", "S", "SNOT", "SQRTNOT", "SWAP", "QASMU"]:
+        nc, nt = EXPORTABLE[name]
+        qs = rng.sample(range(3), nc + nt)
+        arg = none if name not in ONE_PARAM + ["QASMU"] else ({"kind": "scalar", "vals": [enc_num(0.3)]} if name != "QASMU" else
+                                                                {"kind": "list", "vals": [enc_num(0.5), enc_num(-1.25), enc_num(2)]})
+        cases.append(("ndarray-targets", {"N": 3, "ncb": 0, "ops": [{"gate": name, "targets": qs[nc:], "controls": qs[:nc], "arg": arg, "np_targets": True}]}))
+    # a parameterless gate carrying an arg_value (open finding parameter-on-parameterless-gate)
+    for name in PARAMLESS:
+        nc, nt = EXPORTABLE[name]
+        qs = rng.sample(range(3), nc + nt)
+        cases.append(("extra-parameter", {"N": 3, "ncb": 0, "ops": [{"gate": name, "targets": qs[nc:], "controls": qs[:nc],
+                                                                    "arg": {"kind": "scalar", "vals": [enc_num(rng.choice([0.3, 2, 0.0]))]}}]}))
+    # two (or three) gates of one kind whose angles agree to 5-8 significant digits, large and small: every one keeps its own angle
+    # through export and re-import (definition-emitting CRX / CRY, and CRZ / RX / RZ for comparison)
+    NEAR = [(1234567.0, 1234568.5), (0.5, 0.5000001), (123456.7, 123456.8), (1.2345678e-7, 1.2345679e-7), (3.1415926, 3.1415927),
+            (98765.4321, 98765.4329), (2.00001, 2.00002), (1e6 + 0.25, 1e6 + 0.75)]
+    for name in ["CRX", "CRY", "CRZ", "RX", "RZ"]:
+        nc, nt = EXPORTABLE[name]
+        for a, b in NEAR[:ctx.n(5, 8)] if name not in ("CRX", "CRY") else NEAR:
+            ops = []
+            for v in (a, b, -a)[:rng.choice([2, 2, 3])]:
+                qs = rng.sample(range(3), nc + nt)
+                ops.append({"gate": name, "targets": qs[nc:], "controls": qs[:nc], "arg": {"kind": "scalar", "vals": [enc_num(v)]}})
+            if rng.random() < 0.5:
+                ops.insert(1, plain("SNOT", [rng.randrange(3)]))
+            cases.append(("near-equal-angles", {"N": 3, "ncb": 0, "ops": ops}))
     for _ in range(n_ok):
         cases.append(("random", gen_circuit(rng)))
     for i in range(n_bad):
@@ -554,7 +660,8 @@ def correspond(ctx):
     corr = Corr(rule="circuits of 1-4 qubits over the 19 exportable gates (each gate x 19 special parameter values: 0, 0.0, negative, 1e-9, "
                      "1e12, 1e16, 5e-324, ints; QASMU with list / tuple / ndarray parameters, numpy scalars) + random circuits with "
                      "measurements + every exportable gate with 1-3 classical controls and every control value 0..2**k-1 / default (must be refused) + "
-                     "circuits with one non-exportable gate / classical control / inf / nan / measurement without store; "
+                     "circuits with one non-exportable gate / classical control / inf / nan / measurement without store + user gates named like library gates "
+                     "(case variants: refused; exact names, ndarray targets, parameter on a parameterless gate: open findings) + pairs of near-equal angles; "
                      "non-trivial = has a parameter, a definition or a measurement")
     cases = _stream(ctx, ctx.n(220, 2500), ctx.n(60, 500))
     circs = [c for _, c in cases]
@@ -574,9 +681,20 @@ def correspond(ctx):
         if qc is None:
             corr.disagree(inp, err, "a circuit", "the generated circuit cannot be built")
             continue
-        if (text is None) != (m is None):
+        if kind == "ndarray-targets":
+            pass        # numpy arrays as targets are outside the model's input language (TRUSTED): these cases are judged by the oracle only
+        elif (text is None) != (m is None):
             corr.disagree(inp, "refused: " + str(err) if text is None else text[-200:], "refused" if m is None else m[0][-200:],
                           "export accepted/refused differs between model and implementation")
+        elif text is not None and kind == "extra-parameter":
+            # outside circ_wf (the guard of export_valid): the model must print the same text and must itself say that the text is
+            # not well-formed and that the guard fails - the failure is then reported by the oracle (open finding)
+            mtext, (lexed, wf, nops), (g_shapes, g_wf, g_u) = m
+            if mtext != text:
+                corr.disagree(inp, text.split("\n\n")[-1][-300:], mtext.split("\n\n")[-1][-300:], "exported text differs")
+            elif wf or g_wf:
+                corr.disagree(inp, text.split("\n\n")[-1][-300:], dict(wf=wf, circ_wf=g_wf),
+                              "the model calls a statement with a parameter on a parameterless gate well-formed")
         elif text is not None:
             mtext, (lexed, wf, nops), (g_shapes, g_wf, g_u) = m
             # the guards of export_valid hold on every generated circuit (so the theorem speaks about these cases): the repr(float)
@@ -601,7 +719,8 @@ def correspond(ctx):
             corr.oracle_fail(inp, r[0], r[1], r[2])
     # save_qasm / print_qasm: single saves of every third circuit, then histories of 2-3 saves to one path
     pool = [c for k, c in cases if k in ("random", "sweep", "corpus")]
-    hists = [[c] for c in circs[::3]] + [gen_history(ctx.rng, pool) for _ in range(ctx.n(60, 500))]
+    in_finding_class = lambda c: any(is_userlib(o) or is_nptargets(o) or is_extra_param(o) for o in c["ops"])   # judged by `oracle` above
+    hists = [[c] for c in circs[::3] if not in_finding_class(c)] + [gen_history(ctx.rng, pool) for _ in range(ctx.n(60, 500))]
     hists += [r.get("input", r)["history"] for r in corpus() if "history" in r.get("input", r)]
     for h in hists:
         corr.count("history:" + json.dumps(h, sort_keys=True), nontrivial=len(h) > 1, sample=None)
